@@ -1,52 +1,65 @@
 """C33 - request URL, host, port and authority stay consistent.
 
+The accessors are *interpreted* (mitmlint.pyint over the ASTs of http.Request's properties and of net/http/url.py; nothing from
+the repository is imported or run) on a finite domain of requests and URLs, and what comes out is compared with independent
+references written from the RFCs ({http: 80, https: 443}; "host[:port]" names host and port, the port defaulting by scheme).
+Local names, statement shape, helper extraction, conditional expression vs. if-statement, inverted tests do not matter.
+
 Decided:
-  R33.1 setter coverage: the ``Request.host`` and ``Request.port`` setters store the new value and THEN call
-        ``_update_host_and_authority``; that helper computes ``url.hostport(self.scheme, self.host, self.port)`` and
-        writes it to the Host header whenever one is present and to the authority whenever it is non-empty;
-        ``url.hostport`` returns the bare host exactly on the ``default_port(scheme) == port`` path and host:port
-        otherwise; the ``url`` setter distributes ``url.parse``'s result over scheme/host/port/path in the order
-        ``parse`` returns them, and the getter hands them to ``url.unparse`` in the order of its parameters.
+  R33.1 edits keep Host / authority on target: for requests with / without a Host header and with / without an authority
+        (old scheme x old port), ``request.host = h``, ``request.port = p`` and ``request.url = u`` store the new components
+        (scheme, host, port, path read back as assigned) and leave an existing Host header and a non-empty authority naming
+        exactly the new (host, port) under the request's scheme; ``request.url`` read back denotes the assigned URL and
+        assigning it again changes nothing; ``url.hostport`` names (host, port) for str and bytes.
   R33.2 default-port table: every place that fills in a missing port agrees with {http: 80, https: 443}:
-        ``url.default_port`` (str and bytes keys), ``url.parse``, ``parse_h2_request_headers``,
-        ``HttpStream.state_wait_for_request_headers`` (port and scheme chosen by the same test),
-        ``har.request_to_flow``; ``_read_request_line`` defaults through ``url.default_port``.
-  R33.3 no URL component is lost between ``url.parse`` and ``url.unparse`` (may-dependence, flow-insensitive def-use closure
-        inside each function): the *path* element of the tuple ``url.parse`` returns depends on EVERY request-target
-        component the stdlib parser it uses splits off - ``urlparse``: path, params, query, fragment; ``urlsplit``: path,
-        query, fragment (a use of the whole result object, e.g. ``urlunparse(parsed._replace(...))``, counts for all) -
-        and every value ``url.unparse`` returns depends on all four of its parameters.  A component that does not even
-        *may*-flow into the rebuilt path is dropped for every URL that carries it: the URL read back (and the request
-        sent upstream) names another resource.  The closure over-approximates dependence, so a violation is sound;
-        a component that flows only on some paths is NOT detected.
-NOT decided: round-trip equality over all URLs (urllib, IDNA), validity checks, HTTP/2 host_header handling; that the
-        components are re-joined with the right delimiters.
+        ``url.default_port`` (str and bytes keys), ``url.parse``, ``parse_h2_request_headers``, ``_read_request_line``
+        (these four by interpretation), ``HttpStream.state_wait_for_request_headers`` and ``har.request_to_flow`` (path
+        enumeration with the deciding test pinned both ways: the constant port that reaches the request / server address
+        belongs to the scheme chosen on the same path).
+  R33.3 no URL component is lost between ``url.parse`` and ``url.unparse``: on URLs carrying every combination of explicit /
+        default port, ;params, ?query, #fragment, IDN and IP-literal hosts, ``url.parse`` (str and bytes input) returns
+        exactly (scheme, IDNA host, port, path;params?query#fragment), ``url.unparse`` rebuilds a URL that denotes its four
+        arguments, and unparse(parse(u)) denotes u.  Supplementary (sound, skipped with a note when the shape is not the
+        modelled one): def-use closure - the path element ``url.parse`` returns may-depends on every request-target component
+        of the stdlib parse result, every ``url.unparse`` result on all four parameters.
+NOT decided: round-trip equality over ALL URLs (finite samples + may-dependence only), validity checks (check.is_valid_host),
+        HTTP/2 host_header handling.
 """
 
 from __future__ import annotations
 
 import ast
+import ipaddress as _ipaddress
+import re as _re
+import urllib.parse as _up
+from types import SimpleNamespace
+
+import urllib as _urllib
 
 from ..core import AnalysisError
+from ..core import norm
 from ..model import attr_chain
 from ..model import last_attr
+from ..paths import is_const
+from ..pyint import DictRec
+from ..pyint import Interp
+from ..pyint import Raised
+from ..pyint import Rec
 from ..selftest import Mutant
+from ._helpers_A import ASpec
+from ._helpers_A import run_block
 from ._helpers_E import expect
-from ._helpers_E import fact
 from ._helpers_E import params
-from ._helpers_E import paths
-from ._helpers_E import prop_parts
-from ._helpers_E import show
 
 PROP = "C33"
 REG = {
     "strength": "narrow",
-    "technique": "path rules on the Request setters and url.hostport + positional agreement parse/unparse/url setter + default-port table agreement across six sites "
-    "+ def-use closure: every component the stdlib URL parser splits off may-flows into the path url.parse returns, every parameter of url.unparse into its result",
-    "claim": "host/port edits always rewrite an existing Host header and a non-empty authority from the new scheme/host/port; the url "
-    "setter/getter agree with url.parse/unparse on component order; every port-defaulting site agrees with {http: 80, https: 443}; "
+    "technique": "abstract interpretation (pyint) of the Request accessors and net/http/url.py on a finite request / URL domain against RFC references "
+    "+ default-port table agreement across six sites (four interpreted, two by path enumeration) + def-use closure over url.parse / url.unparse",
+    "claim": "host / port / url edits always leave an existing Host header and a non-empty authority naming the new destination and read back as assigned "
+    "(url get/set idempotent); every port-defaulting site agrees with {http: 80, https: 443}; "
     "url.parse's path carries path, ;params, ?query and #fragment of the parsed URL and url.unparse uses all four components.",
-    "note": "Three necessary conditions only; URL round-trip equality is not decided.",
+    "note": "Necessary conditions over finite samples; URL round-trip equality over all URLs is not decided.",
 }
 
 HTTP = "mitmproxy/http.py"
@@ -62,16 +75,39 @@ def _s(v):
     return v.decode() if isinstance(v, bytes) else v
 
 
-def _ifexp_table(ctx, node: ast.IfExp, what: str):
-    """{scheme: port} from ``A if X == <scheme literal> else B``."""
-    t = node.test
-    ok = isinstance(t, ast.Compare) and len(t.ops) == 1 and isinstance(t.ops[0], ast.Eq) and isinstance(t.comparators[0], ast.Constant) \
-        and isinstance(node.body, ast.Constant) and isinstance(node.orelse, ast.Constant)
-    ctx.require(ok, f"{what}: default-port expression not modelled: {ast.unparse(node)}")
-    lit = _s(t.comparators[0].value)
-    ctx.require(lit in RFC, f"{what}: compares the scheme with {lit!r}")
-    other = "https" if lit == "http" else "http"
-    return {lit: node.body.value, other: node.orelse.value}
+def _text(v):
+    """str form of a Host header / authority value (bytes are IDNA or UTF-8)."""
+    if isinstance(v, bytes):
+        try:
+            return v.decode("idna")
+        except UnicodeError:
+            return v.decode("utf-8", "surrogateescape")
+    return v
+
+
+_HOSTPORT = _re.compile(r"^(?P<host>[^:]+|\[.+\])(?::(?P<port>\d+))?$")
+
+
+def _destination(scheme, value):
+    """(host, port) a Host header / authority value names under ``scheme`` (RFC 9110 7.2 / 4.2: a missing port is the scheme's default)."""
+    t = _text(value)
+    m = _HOSTPORT.match(t) if isinstance(t, str) else None
+    if not m:
+        return None
+    host = m["host"]
+    if host.startswith("[") and host.endswith("]"):
+        host = host[1:-1]
+    return host.lower(), int(m["port"]) if m["port"] else RFC.get(_s(scheme))
+
+
+class _Interp(Interp):
+    def comp(self, e, env, mod, depth):
+        out = super().comp(e, env, mod, depth)
+        return iter(out) if isinstance(e, ast.GeneratorExp) else out  # a generator expression is an iterator (next(), single pass)
+
+
+def _interp(ctx):
+    return _Interp(ctx.model, trusted_modules={"re": _re, "urllib": _urllib, "ipaddress": _ipaddress})
 
 
 # ---------------------------------------------------------------------------------------------------
@@ -227,226 +263,465 @@ def _param_deps(fn, expr):
     return out
 
 
-def check(ctx):
-    ctx.rule("R33.1", "host/port setters store then call _update_host_and_authority, which rewrites Host (if present) and authority (if non-empty) from hostport(scheme, host, port); url setter/getter agree with parse/unparse on order")
-    ctx.rule("R33.2", "every port-defaulting site agrees with {http: 80, https: 443}")
-    ctx.rule("R33.3", "the path url.parse returns may-depends on every request-target component (path, ;params, ?query, #fragment) of the stdlib parse result; every url.unparse result depends on all four parameters")
-    m = ctx.model
-    req = m.cls(HTTP, "Request")
+# ---------------------------------------------------------------------------------------------------
+# R33.1 edits, interpreted
 
-    # ---- R33.1 (a) setters
-    for name, field in (("host", "self.data.host"), ("port", "self.data.port")):
-        g, s = prop_parts(req, name)
-        ctx.require(s is not None, f"Request.{name} setter vanished")
-        ctx.functions.add(f"{HTTP}::Request.{name}.setter")
-        trs, eng = paths(s, keep=lambda e: (e[0] == "assign" and e[1].startswith("self.data.")) or (e[0] == "call" and e[1] == "self._update_host_and_authority"))
-        ctx.paths += len(trs)
-        bad = False
-        n = 0
-        for t, how in trs:
-            if how != "return":
-                continue
-            n += 1
-            st = [i for i, e in enumerate(t) if e[0] == "assign" and e[1] == field]
-            up = [i for i, e in enumerate(t) if e[0] == "call"]
-            if not st or not up or up[-1] < st[-1]:
-                bad = True
-                ctx.fail("R33.1", (HTTP, f"Request.{name}.setter", s), f"{name} setter: path [{show(t)}]",
-                         f"the {name} setter does not call _update_host_and_authority after storing {field}: Host header / authority keep pointing at the old destination")
-        ctx.require(bad or n >= 1, f"Request.{name} setter has no returning path")
-        if not bad:
-            ctx.ok("R33.1", f"Request.{name} setter: {field} := value, then _update_host_and_authority()")
+OLD_HOST = "old.example"
+KINDS = ("host-header", "authority", "both", "neither")
+TARGET = "/p;x?q=1"
+URL_EDITS = [(ns, np, OLD_HOST, True) for ns in RFC for np in (80, 443, 8081)] + [(ns, RFC[ns], OLD_HOST, False) for ns in RFC] + [
+    ("http", 80, "new.example", False), ("https", 8081, "new.example", True), ("https", 443, "192.0.2.7", True)]
 
-    # ---- R33.1 (b) the helper
-    up = ctx.func(HTTP, "Request._update_host_and_authority")
-    want_val = "url.hostport(self.scheme, self.host, self.port)"
 
-    def q(x):
-        return x.replace('"', "'")
+def _ref_hostport(scheme, host, port):
+    return host if RFC[scheme] == port else f"{host}:{port}"
 
-    trs, eng = paths(up, keep=lambda e: e[0] == "assign")
-    ctx.paths += len(trs)
-    bad = False
-    for t, how in trs:
-        if how != "return":
-            continue
-        probs = []
 
-        def derived(txt):
-            if txt == want_val:
-                return True
-            src = [e for e in t if e[0] == "assign" and e[1] == txt]
-            return bool(src) and src[-1][2] == want_val
+def _make_request(scheme, host, port, kind):
+    hp = _ref_hostport(scheme, host, port)
+    items = {"Accept": "*/*"}
+    if kind in ("host-header", "both"):
+        items["Host"] = hp
+    hdr = DictRec("Headers", items=items, case_insensitive=True, _name="request.headers")
+    mux = kind in ("authority", "both")
+    data = Rec("RequestData", _bases=("MessageData",), _name="request.data", host=host, port=port, method=b"GET", scheme=scheme.encode(), authority=hp.encode() if mux else b"",
+               path=b"/old", http_version=b"HTTP/2.0" if mux else b"HTTP/1.1", headers=hdr, content=None, trailers=None, timestamp_start=1.0, timestamp_end=None)
+    return Rec("Request", _bases=("Message",), _impl=(HTTP, "Request"), _name="request", data=data)
 
-        hp = [e[2] for e in t if e[0] == "cond" and q(e[1]).lower() in ("'host' in self.data.headers", "'host' in self.headers")]
-        hset = [e for e in t if e[0] == "assign" and q(e[1]).lower() in ("self.data.headers['host']", "self.headers['host']")]
-        if (not hp or hp[-1]) and not (hset and derived(hset[-1][2])):
-            probs.append("an existing Host header is not rewritten with hostport(scheme, host, port)")
-        au = fact(t, "self.data.authority")
-        if au is None:
-            au = fact(t, "self.authority")
-        aset = [e for e in t if e[0] == "assign" and e[1] in ("self.authority", "self.data.authority")]
-        if au is not False and not (aset and derived(aset[-1][2])):
-            probs.append("a non-empty authority is not rewritten with hostport(scheme, host, port)")
-        for p in probs:
-            bad = True
-            ctx.fail("R33.1", (HTTP, "Request._update_host_and_authority", up), f"_update_host_and_authority: path [{show(t)}]", p)
-    ctx.require(bad or len(trs) >= 4, f"_update_host_and_authority: expected >= 4 paths (Host present/absent x authority set/empty), found {len(trs)}")
-    if not bad:
-        ctx.ok("R33.1", f"_update_host_and_authority: {len(trs)} paths; Host (if present) and authority (if non-empty) := hostport(scheme, host, port)")
 
-    # ---- R33.1 (c) url.hostport
+def _host_header(req):
+    h = req.data.headers
+    if not isinstance(h, DictRec):
+        return None
+    for k, v in h._items.items():
+        if _text(k).lower() == "host":
+            return v
+    return None
+
+
+def _snapshot(req):
+    d = {k: v for k, v in vars(req.data).items() if not k.startswith("_") and k != "headers"}
+    h = req.data.headers
+    d["headers"] = tuple(sorted((_text(k).lower(), _text(v)) for k, v in h._items.items())) if isinstance(h, DictRec) else repr(h)
+    return d
+
+
+def _set(it, ctx, req, attr, value):
+    tgt = ast.Attribute(value=ast.Name(id="$o", ctx=ast.Load()), attr=attr, ctx=ast.Store())
+    it.assign(tgt, value, {"$o": req}, ctx.model.module(HTTP), 0)
+
+
+def _on_target(req, kind, scheme, host, port):
+    """What is wrong with Host / authority of a request that should now point at (host, port)."""
+    out = []
+    want = (host.lower(), port)
+    hv = _host_header(req)
+    if hv is None:
+        if kind in ("host-header", "both"):
+            out.append("the existing Host header is gone")
+    elif _destination(scheme, hv) != want:
+        out.append(f"the Host header is {_text(hv)!r}, which under {scheme} names {_destination(scheme, hv)} instead of {want}")
+    au = req.data.authority
+    if not au:
+        if kind in ("authority", "both"):
+            out.append("the authority was cleared")
+    elif _destination(scheme, au) != want:
+        out.append(f"the authority is {_text(au)!r}, which under {scheme} names {_destination(scheme, au)} instead of {want}")
+    return out
+
+
+def _ref_parse(u):
+    """(scheme, host, port, request target) a URL denotes, by the stdlib splitter and the RFC default ports."""
+    sp = _up.urlsplit(u)
+    rest = u.split("://", 1)[1] if "://" in u else ""
+    target = rest[len(sp.netloc):]
+    if not target.startswith("/"):
+        target = "/" + target
+    try:
+        port = sp.port
+    except ValueError:
+        return None
+    return sp.scheme, (sp.hostname or "").lower(), port or RFC.get(sp.scheme), target
+
+
+def _edits(ctx):
+    req_cls = ctx.model.cls(HTTP, "Request")
+    for n in ("_update_host_and_authority",):
+        if ctx.model.has(HTTP, f"Request.{n}"):
+            ctx.func(HTTP, f"Request.{n}")
+    ctx.functions.update({f"{HTTP}::Request.host.setter", f"{HTTP}::Request.port.setter", f"{HTTP}::Request.url", f"{HTTP}::Request.url.setter"})
+    bad = {"host": [], "port": [], "url-set": [], "url-get": []}
+    runs = 0
+    shared = _interp(ctx)
+
+    def fresh():
+        shared.steps = 0  # the step bound guards one interpreted edit, not the whole table
+        return shared
+
+    def attempt(key, what, fn):
+        try:
+            return fn()
+        except Raised as r:
+            bad[key].append(f"{what}: raises {r.name}")
+            return None
+
+    for old_scheme in RFC:
+        for old_port in (80, 443, 8080):
+            for kind in KINDS:
+                state = f"{old_scheme}://{OLD_HOST}:{old_port} [{kind}]"
+                # host edits
+                for new_host in ("new.example",):
+                    it, req = fresh(), _make_request(old_scheme, OLD_HOST, old_port, kind)
+                    runs += 1
+                    if attempt("host", f"{state} host = {new_host!r}", lambda: (_set(it, ctx, req, "host", new_host), True)[1]):
+                        probs = ([] if req.data.host == new_host else [f"host reads back as {req.data.host!r}"]) + _on_target(req, kind, old_scheme, new_host, old_port)
+                        bad["host"] += [f"{state} host = {new_host!r}: {p}" for p in probs]
+                # port edits
+                for new_port in (80, 443, 8081):
+                    it, req = fresh(), _make_request(old_scheme, OLD_HOST, old_port, kind)
+                    runs += 1
+                    if attempt("port", f"{state} port = {new_port}", lambda: (_set(it, ctx, req, "port", new_port), True)[1]):
+                        probs = ([] if req.data.port == new_port else [f"port reads back as {req.data.port!r}"]) + _on_target(req, kind, old_scheme, OLD_HOST, new_port)
+                        bad["port"] += [f"{state} port = {new_port}: {p}" for p in probs]
+                # url edits (requests that carry both or neither of Host header / authority; same and new host, explicit and implied port)
+                if kind not in ("both", "neither"):
+                    continue
+                for ns, np, nh, explicit in URL_EDITS:
+                    u = f"{ns}://{nh}:{np}{TARGET}" if explicit else f"{ns}://{nh}{TARGET}"
+                    it, req = fresh(), _make_request(old_scheme, OLD_HOST, old_port, kind)
+                    runs += 1
+                    what = f"{state} url = {u!r}"
+                    if not attempt("url-set", what, lambda: (_set(it, ctx, req, "url", u), True)[1]):
+                        continue
+                    d = req.data
+                    probs = []
+                    if (_s(d.scheme), d.host, d.port, _s(d.path)) != (ns, nh, np, TARGET):
+                        probs.append(f"components read back as {(_s(d.scheme), d.host, d.port, _s(d.path))}, assigned {(ns, nh, np, TARGET)}")
+                    probs += _on_target(req, kind, ns, nh, np)
+                    bad["url-set"] += [f"{what}: {p}" for p in probs]
+                    if probs:
+                        continue
+                    got = attempt("url-get", what + "; reading url", lambda: it.getattr(req, "url", None, 0))
+                    if got is None:
+                        continue
+                    if not isinstance(got, str) or _ref_parse(got) != (ns, nh, np, TARGET):
+                        bad["url-get"].append(f"{what}: url reads back as {got!r}, which denotes {_ref_parse(got) if isinstance(got, str) else None} instead of {(ns, nh, np, TARGET)}")
+                        continue
+                    before = _snapshot(req)
+                    if attempt("url-get", what + "; url = url", lambda: (_set(it, ctx, req, "url", got), True)[1]) and _snapshot(req) != before:
+                        after = _snapshot(req)
+                        bad["url-get"].append(f"{what}: assigning the URL read back ({got!r}) changes {sorted(k for k in before if before[k] != after.get(k))}")
+    ctx.cells += runs
+    from ._helpers_E import prop_parts
+
+    parts = {n: prop_parts(req_cls, n) for n in ("host", "port", "url")}
+    ctx.require(all(g is not None and s is not None for g, s in parts.values()), "Request.host / port / url property vanished")
+    for key, name, node, text, why in (
+        ("host", "Request.host.setter", parts["host"][1], "host edit keeps Host / authority on target", "after request.host = h the new host must read back and an existing Host header / non-empty authority must name (h, port)"),
+        ("port", "Request.port.setter", parts["port"][1], "port edit keeps Host / authority on target", "after request.port = p the new port must read back and an existing Host header / non-empty authority must name (host, p)"),
+        ("url-set", "Request.url.setter", parts["url"][1], "url assignment stores all components and keeps Host / authority on target",
+         "after request.url = u scheme, host, port and path must read back as u's components and an existing Host header / non-empty authority must name u's destination"),
+        ("url-get", "Request.url", parts["url"][0], "url reads back as assigned, re-assigning it changes nothing", "request.url must denote the URL that was assigned and assigning it again must change nothing"),
+    ):
+        ctx.check(not bad[key], "R33.1", (HTTP, name, node), text, why + ": " + " | ".join(bad[key][:3]) + (f" (+{len(bad[key]) - 3} more)" if len(bad[key]) > 3 else ""),
+                  desc=f"{name}: {text} ({runs} interpreted edits over scheme x port x Host/authority present)")
+
+    # url.hostport names (host, port), for str and bytes
     hpf = ctx.func(URL, "hostport")
-    sp, hp_, pp = params(hpf, drop_self=False)
-    trs, eng = paths(hpf, keep=lambda e: e[0] == "return")
-    ctx.paths += len(trs)
-    bad = False
-    seen = set()
-    for t, how in trs:
-        if how != "return":
-            continue
-        dflt = [e[2] for e in t if e[0] == "cond" and e[1].replace(" ", "") in (f"default_port({sp})=={pp}", f"{pp}==default_port({sp})")]
-        ndf = [not e[2] for e in t if e[0] == "cond" and e[1].replace(" ", "") in (f"default_port({sp})!={pp}", f"{pp}!=default_port({sp})")]
-        d = (dflt + ndf)[-1] if (dflt + ndf) else None
-        ret = [e for e in t if e[0] == "return"][-1][1]
-        with_port = ret in (f"'%s:%d' % ({hp_}, {pp})", f"b'%s:%d' % ({hp_}, {pp})", f"f'{{{hp_}}}:{{{pp}}}'")
-        seen.add(d)
-        if d is None or (d and ret != hp_) or (not d and not with_port):
-            bad = True
-            ctx.fail("R33.1", (URL, "hostport", hpf), f"hostport: path [{show(t)}]",
-                     "hostport must return the bare host exactly when the port is the scheme's default and host:port otherwise (url/Host/authority would not be idempotent)")
-    ctx.require(bad or seen == {True, False}, "url.hostport: default / non-default paths not recognised")
-    if not bad:
-        ctx.ok("R33.1", "url.hostport: bare host iff default_port(scheme) == port")
+    probs = []
+    for scheme in ("http", "https"):
+        for port in (80, 443, 8080):
+            for as_bytes in (False, True):
+                host = "h.example"
+                a = (scheme.encode(), host.encode(), port) if as_bytes else (scheme, host, port)
+                ctx.cells += 1
+                try:
+                    r = _interp(ctx).call(URL, "hostport", *a)
+                except Raised as e:
+                    probs.append(f"hostport{a} raises {e.name}")
+                    continue
+                if type(r) is not type(a[1]) or _destination(scheme, r) != (host, port):
+                    probs.append(f"hostport{a} = {r!r}, which names {_destination(scheme, r) if isinstance(r, (str, bytes)) else None}")
+    ctx.check(not probs, "R33.1", (URL, "hostport", hpf), "hostport names (host, port) under the scheme", "url.hostport must render host and port so that, with the scheme's default port filled in, exactly (host, port) is named "
+              "(the Host header / authority / URL written from it would point elsewhere): " + " | ".join(probs[:3]), desc="url.hostport: names (host, port) for str and bytes, 12 cells")
 
-    # ---- R33.1 (d) component order: parse -> url setter, url getter -> unparse
+
+# ---------------------------------------------------------------------------------------------------
+# R33.3 parse / unparse on samples
+
+PUNY = "xn--bcher-kva.example"
+SAMPLES = [  # url, scheme, host, port, path
+    ("http://example.com", "http", "example.com", 80, "/"),
+    ("https://example.com/", "https", "example.com", 443, "/"),
+    ("http://example.com:8080/a/b", "http", "example.com", 8080, "/a/b"),
+    ("https://example.com:444/shop/cart;jsessionid=0A1B?item=42#frag", "https", "example.com", 444, "/shop/cart;jsessionid=0A1B?item=42#frag"),
+    ("http://example.com/list;page=2", "http", "example.com", 80, "/list;page=2"),
+    ("http://example.com/a;v=1/b?sort=asc", "http", "example.com", 80, "/a;v=1/b?sort=asc"),
+    ("http://example.com/?q=1&r=2", "http", "example.com", 80, "/?q=1&r=2"),
+    ("https://example.com/p#frag", "https", "example.com", 443, "/p#frag"),
+    ("http://example.com?q=1", "http", "example.com", 80, "/?q=1"),
+    (f"https://{PUNY}:8443/p?q", "https", PUNY, 8443, "/p?q"),
+    ("http://192.0.2.7:8080/x", "http", "192.0.2.7", 8080, "/x"),
+    ("https://192.0.2.7/x", "https", "192.0.2.7", 443, "/x"),
+]
+
+
+def _parse_unparse(ctx):
     parse = ctx.func(URL, "parse")
-    rets = [n for n in ast.walk(parse) if isinstance(n, ast.Return) and n.value is not None and n._parent is parse]
-    ctx.require(len(rets) == 1 and isinstance(rets[0].value, ast.Tuple) and len(rets[0].value.elts) == 4, "url.parse no longer ends in 'return a, b, c, d'")
-
-    def role(e, depth=0):
-        attrs = {n.attr for n in ast.walk(e) if isinstance(n, ast.Attribute)}
-        if depth < 2:
-            for nm in {n.id for n in ast.walk(e) if isinstance(n, ast.Name)}:
-                for s in ast.walk(parse):
-                    if isinstance(s, (ast.Assign, ast.AnnAssign)) and s.value is not None:
-                        tg = s.targets[0] if isinstance(s, ast.Assign) else s.target
-                        if isinstance(tg, ast.Name) and tg.id == nm and nm not in ("parsed", "parsed_b", "url"):
-                            attrs |= {n.attr for n in ast.walk(s.value) if isinstance(n, ast.Attribute)}
-        for r, key in (("port", "port"), ("host", "hostname"), ("path", "path"), ("scheme", "scheme")):
-            if key in attrs:
-                return r
-        return None
-
-    order = [role(e) for e in rets[0].value.elts]
-    if order.count(None) == 1 and len(set(order)) == 4:
-        # three elements are recognised by the parse-result attribute they read; the fourth is the remaining component (R33.3 then decides what it is built from)
-        order[order.index(None)] = ({"host", "path", "port", "scheme"} - set(order)).pop()
-    ctx.require(sorted(x or "?" for x in order) == ["host", "path", "port", "scheme"], f"url.parse: component roles of the returned tuple not recognised: {order}")
-    g, s = prop_parts(req, "url")
-    ctx.require(g is not None and s is not None, "Request.url property vanished")
-    asg = [n for n in ast.walk(s) if isinstance(n, ast.Assign) and isinstance(n.value, ast.Call) and ast.unparse(n.value.func) == "url.parse"]
-    ctx.require(len(asg) == 1 and isinstance(asg[0].targets[0], ast.Tuple), "Request.url setter is no longer 'a, b, c, d = url.parse(val)'")
-    tgts = [attr_chain(t) for t in asg[0].targets[0].elts]
-    ctx.check(tgts == [f"self.{r}" for r in order], "R33.1", (HTTP, "Request.url.setter", asg[0]), f"url setter: {', '.join(tgts)} = url.parse(...) returning ({', '.join(order)})",
-              "the url setter assigns url.parse's components to the wrong attributes (or not all four)", desc=f"url setter order = parse order {order}")
     unp = ctx.func(URL, "unparse")
-    up_params = params(unp, drop_self=False)
-    calls_ = [n for n in ast.walk(g) if isinstance(n, ast.Call) and ast.unparse(n.func) == "url.unparse"]
-    ctx.require(len(calls_) == 1 and len(calls_[0].args) == 4 and len(up_params) == 4, "Request.url getter no longer calls url.unparse(a, b, c, d)")
+    pb, ub, rb = [], [], []
+    for u, scheme, host, port, path in SAMPLES:
+        want = (scheme.encode(), host.encode(), port, path.encode())
+        for arg in (u, u.encode()):
+            ctx.cells += 1
+            try:
+                got = _interp(ctx).call(URL, "parse", arg)
+            except Raised as e:
+                pb.append(f"parse({arg!r}) raises {e.name}")
+                continue
+            if got != want:
+                pb.append(f"parse({arg!r}) = {got!r}, expected {want!r}")
+        for a in ((scheme, host, port, path), want):
+            ctx.cells += 1
+            try:
+                got = _interp(ctx).call(URL, "unparse", *a)
+            except Raised as e:
+                ub.append(f"unparse{a} raises {e.name}")
+                continue
+            if type(got) is not type(a[0]) or _ref_parse(_s(got)) != (scheme, host, port, path):
+                ub.append(f"unparse{a} = {got!r}, which denotes {_ref_parse(_s(got)) if isinstance(got, (str, bytes)) else None}")
+        ctx.cells += 1
+        try:
+            it = _interp(ctx)
+            back = it.call(URL, "unparse", *it.call(URL, "parse", u))
+        except Raised as e:
+            rb.append(f"unparse(*parse({u!r})) raises {e.name}")
+            continue
+        if not isinstance(back, (str, bytes)) or _ref_parse(_s(back)) != (scheme, host, port, path):
+            rb.append(f"unparse(*parse({u!r})) = {back!r}")
+    ctx.check(not pb, "R33.3", (URL, "parse", parse), "url.parse returns (scheme, host, port, path;params?query#fragment)",
+              "url.parse loses or alters a URL component - the URL read back (and the request sent upstream) names another resource: " + " | ".join(pb[:3]) + (f" (+{len(pb) - 3} more)" if len(pb) > 3 else ""),
+              desc=f"url.parse: {len(SAMPLES)} sample URLs (str and bytes) parse into exactly their components")
+    ctx.check(not ub, "R33.3", (URL, "unparse", unp), "url.unparse denotes its four arguments", "url.unparse builds a URL that does not denote (scheme, host, port, path): " + " | ".join(ub[:3]),
+              desc=f"url.unparse: {len(SAMPLES)} component tuples (str and bytes) are rebuilt into a URL that denotes them")
+    ctx.check(not rb, "R33.3", (URL, "unparse", unp), "unparse(parse(u)) denotes u", "a URL does not survive url.parse followed by url.unparse: " + " | ".join(rb[:3]), desc="unparse(*parse(u)) denotes u on all samples")
 
-    def arg_role(a):
-        ch = attr_chain(a)
-        if ch.startswith("self."):
-            return ch[5:]
-        if isinstance(a, ast.Name):
-            src = [n.value for n in ast.walk(g) if isinstance(n, ast.Assign) and isinstance(n.targets[0], ast.Name) and n.targets[0].id == a.id]
-            attrs = {attr_chain(x)[5:] for v in src for x in ast.walk(v) if attr_chain(x).startswith("self.")}
-            return attrs.pop() if len(attrs) == 1 else None
-        return None
+    # supplementary: may-dependence over ALL urls (sound when it fires; skipped when the function does not have the modelled shape)
+    try:
+        rets = [n for n in ast.walk(parse) if isinstance(n, ast.Return) and n.value is not None and n._parent is parse]
+        if len(rets) != 1 or not isinstance(rets[0].value, ast.Tuple) or len(rets[0].value.elts) != 4:
+            raise AnalysisError("url.parse does not end in a single 'return a, b, c, d'")
+        kind, comps = _parse_components(parse, rets[0].value.elts[3], "url.parse")
+        for c in [c for c in _PARSERS[kind] if c in _TARGET_PARTS]:
+            ctx.check(c in comps, "R33.3", (URL, "parse", rets[0]), f"url.parse: returned path does not depend on {kind}().{c}",
+                      f"url.parse splits the URL with urllib.parse.{kind}, which moves the {c!r} piece out of the other components, but the path it returns is computed only from {sorted(comps)}: "
+                      f"every URL that carries a {c} component reads back (and is sent upstream) without it", desc=f"url.parse: path <- {kind}().{c}")
+        up_params = params(unp, drop_self=False)
+        u_rets = [n for n in ast.walk(unp) if isinstance(n, ast.Return) and n.value is not None]
+        lost = sorted({p for r in u_rets for p in set(up_params) - _param_deps(unp, r.value)})
+        ctx.check(not lost, "R33.3", (URL, "unparse", unp), f"url.unparse: a returned URL does not depend on {lost}",
+                  f"url.unparse builds a URL (on at least one return) without its {lost} component: Request.url no longer reflects the request", desc=f"url.unparse: every return <- {up_params}")
+    except AnalysisError as e:
+        ctx.note(f"R33.3 supplementary def-use closure skipped: {e}")
 
-    got = [arg_role(a) for a in calls_[0].args]
-    ctx.check(got == up_params, "R33.1", (HTTP, "Request.url", calls_[0]), f"url getter: url.unparse({', '.join(str(x) for x in got)}) vs parameters ({', '.join(up_params)})",
-              "the url getter passes the request's components to url.unparse in the wrong order", desc=f"url getter order = unparse parameters {up_params}")
 
-    # ---- R33.3 no component is lost
-    path_e = rets[0].value.elts[order.index("path")]
-    kind, comps = _parse_components(parse, path_e, "url.parse")
-    need = [c for c in _PARSERS[kind] if c in _TARGET_PARTS]
-    for c in need:
-        ctx.check(c in comps, "R33.3", (URL, "parse", rets[0]), f"url.parse: returned path does not depend on {kind}().{c}",
-                  f"url.parse splits the URL with urllib.parse.{kind}, which moves the {c!r} piece out of the other components, but the path it returns is computed only from {sorted(comps)}: "
-                  f"every URL that carries a {c} component reads back (and is sent upstream) without it",
-                  desc=f"url.parse: path <- {kind}().{c}")
-    u_rets = [n for n in ast.walk(unp) if isinstance(n, ast.Return) and n.value is not None]
-    ctx.require(len(u_rets) >= 1, "url.unparse returns nothing")
-    lost = sorted({p for r in u_rets for p in set(up_params) - _param_deps(unp, r.value)})
-    ctx.check(not lost, "R33.3", (URL, "unparse", unp), f"url.unparse: a returned URL does not depend on {lost}",
-              f"url.unparse builds a URL (on at least one return) without its {lost} component: Request.url no longer reflects the request", desc=f"url.unparse: every return <- {up_params}")
+# ---------------------------------------------------------------------------------------------------
+# R33.2 default-port tables
 
-    # ---- R33.2 default-port tables
+
+def _fold(expr, st, sp):
+    """Constant folding for the table idioms a default-port site may use: tuple / list literals and constant subscripts."""
+    from ..paths import C
+
+    if isinstance(expr, (ast.Tuple, ast.List)) and expr.elts:
+        vals = [sp.v(e, st) for e in expr.elts]
+        if all(is_const(v) for v in vals):
+            return C(tuple(v[1] for v in vals))
+    if isinstance(expr, ast.BoolOp) and not all(isinstance(v, (ast.Compare, ast.BoolOp)) or (isinstance(v, ast.UnaryOp) and isinstance(v.op, ast.Not)) for v in expr.values):
+        return ("u",)  # ``a or b`` yields one of its operands, not a truth value
+    if isinstance(expr, ast.Subscript):
+        base, idx = sp.v(expr.value, st), sp.v(expr.slice, st)
+        if is_const(base) and is_const(idx) and isinstance(base[1], tuple) and isinstance(idx[1], int) and -len(base[1]) <= idx[1] < len(base[1]):
+            return C(base[1][idx[1]])
+    return None
+
+
+class _SinkSpec(ASpec):
+    """ASpec that reports constant-carrying writes to chosen attribute sinks (('port'|'scheme', value) events), also for
+    ``x.attr = A if c else B`` (the engine binds the arms itself), with local aliases of the target's root expanded."""
+
+    def __init__(self, sinks, **kw):
+        super().__init__(**kw)
+        self._sinks = sinks  # [(kind, (suffixes...))]
+        self.atoms_seen = set()
+
+    def chain(self, e, st):
+        parts = []
+        while isinstance(e, ast.Attribute):
+            parts.append(e.attr)
+            e = e.value
+        if not isinstance(e, ast.Name):
+            return None
+        root = e.id
+        v = st.get(f"0:{root}") if root != "self" else None
+        if isinstance(v, tuple) and len(v) == 2 and v[0] == "r":
+            root = v[1]
+        return ".".join([root] + parts[::-1])
+
+    def bind(self, target, value_expr, st, depth, value=None):
+        v = value if value is not None else self.value(value_expr, st, depth)
+        st = super().bind(target, value_expr, st, depth, value=v)
+        if isinstance(target, ast.Attribute):
+            ch = self.chain(target, st) or ""
+            for kind, suffixes in self._sinks:
+                if any(ch == s or ch.endswith("." + s) for s in suffixes):
+                    st = st.emit((kind, v))
+        return st
+
+
+def _default_ports(ctx):
     def table(site, where, tab, node):
         ctx.cells += len(tab)
         complete = {_s(k) for k in tab} == set(RFC) and (site != "url.default_port" or {type(k) for k in tab if _s(k) == "http"} == {type(k) for k in tab if _s(k) == "https"} == {str, bytes})
         ctx.check(complete and all(RFC.get(_s(k)) == v for k, v in tab.items()),
-                  "R33.2", where + (node,), f"{site}: {dict(sorted((repr(k), v) for k, v in tab.items()))}",
+                  "R33.2", where + (node,), f"{site}: {dict(sorted(((repr(k), v) for k, v in tab.items()), key=repr))}",
                   f"{site} defaults ports differently from {RFC}: a URL without an explicit port and its re-rendered form denote different destinations",
-                  desc=f"{site}: {sorted((_s(k), v) for k, v in tab.items())}")
+                  desc=f"{site}: {sorted(((_s(k), v) for k, v in tab.items()), key=repr)}")
 
-    dp = ctx.func(URL, "default_port")
-    ds = [n for n in ast.walk(dp) if isinstance(n, ast.Dict)]
-    ctx.require(len(ds) == 1 and all(isinstance(k, ast.Constant) and isinstance(v, ast.Constant) for k, v in zip(ds[0].keys, ds[0].values)), "url.default_port: table literal not found")
-    table("url.default_port", (URL, "default_port"), {k.value: v.value for k, v in zip(ds[0].keys, ds[0].values)}, ds[0])
+    def run(it, rel, qual, *args):
+        try:
+            return it.call(rel, qual, *args)
+        except Raised as e:
+            return f"<raises {e.name}>"
 
-    def port_ifexps(fn):
-        out = []
-        for n in ast.walk(fn):
-            if isinstance(n, ast.Assign) and isinstance(n.value, ast.IfExp) and isinstance(n.targets[0], ast.Name) and n.targets[0].id == "port":
-                out.append(n.value)
+    def port_of(site, run_with):
+        """{scheme: defaulted port}: the position of the port in the result is found with an explicit sentinel port."""
+        probe = run_with("http", 8444)
+        idx = [i for i, v in enumerate(probe) if v == 8444 and isinstance(v, int)] if isinstance(probe, (tuple, list)) else []
+        ctx.require(len(idx) == 1, f"{site}: position of the port in the result not found ({probe!r})")
+        out = {}
+        for scheme in RFC:
+            r = run_with(scheme, None)
+            out[scheme] = r[idx[0]] if isinstance(r, (tuple, list)) and len(r) == len(probe) else r
         return out
 
-    pe = port_ifexps(parse)
-    ctx.require(len(pe) == 1, f"url.parse: {len(pe)} default-port expressions")
-    table("url.parse", (URL, "parse"), _ifexp_table(ctx, pe[0], "url.parse"), pe[0])
+    dp = ctx.func(URL, "default_port")
+    table("url.default_port", (URL, "default_port"), {k: run(_interp(ctx), URL, "default_port", k) for k in ("http", b"http", "https", b"https")}, dp)
+
+    parse = ctx.func(URL, "parse")
+    table("url.parse", (URL, "parse"), port_of("url.parse", lambda s, p: run(_interp(ctx), URL, "parse", f"{s}://example.com{':%d' % p if p else ''}/x")), parse)
 
     h2 = ctx.func(H2, "parse_h2_request_headers")
-    pe = port_ifexps(h2)
-    ctx.require(len(pe) == 1, f"parse_h2_request_headers: {len(pe)} default-port expressions")
-    table("parse_h2_request_headers", (H2, "parse_h2_request_headers"), _ifexp_table(ctx, pe[0], "parse_h2_request_headers"), pe[0])
 
-    hs = ctx.func(HS, "HttpStream.state_wait_for_request_headers")
-    pe = port_ifexps(hs)
-    ctx.require(len(pe) == 1 and isinstance(pe[0].body, ast.Constant) and isinstance(pe[0].orelse, ast.Constant), f"HttpStream.state_wait_for_request_headers: {len(pe)} default-port expressions")
-    test = ast.unparse(pe[0].test)
-    se = [n.value for n in ast.walk(hs) if isinstance(n, ast.Assign) and attr_chain(n.targets[0]).endswith("request.scheme") and isinstance(n.value, ast.IfExp) and ast.unparse(n.value.test) == test]
-    ctx.require(len(se) == 1 and isinstance(se[0].body, ast.Constant) and isinstance(se[0].orelse, ast.Constant), "HttpStream.state_wait_for_request_headers: scheme chosen by the same test not found")
-    table("HttpStream.state_wait_for_request_headers", (HS, "HttpStream.state_wait_for_request_headers"), {se[0].body.value: pe[0].body.value, se[0].orelse.value: pe[0].orelse.value}, pe[0])
+    def h2_run(s, p):
+        it = _interp(ctx)
+        for rel in (HTTP, H2):
+            it.overrides[(rel, "Headers")] = lambda fields=(), **kw: ("Headers", tuple(fields))
+        return run(it, H2, "parse_h2_request_headers", [(b":method", b"GET"), (b":scheme", s.encode()), (b":path", b"/x"), (b":authority", b"example.com" + (b":%d" % p if p else b""))])
 
-    rtf = ctx.func(HAR, "request_to_flow")
-    ifs = [n for n in ast.walk(rtf) if isinstance(n, ast.If) and isinstance(n.test, ast.Call) and last_attr(n.test.func) == "startswith" and n.test.args
-           and isinstance(n.test.args[0], ast.Constant) and str(n.test.args[0].value).endswith("://")]
-    ctx.require(len(ifs) == 1, "har.request_to_flow: scheme test (url.startswith('<scheme>://')) not found")
-
-    def const_port(block):
-        a = [s for s in block if isinstance(s, ast.Assign) and isinstance(s.targets[0], ast.Name) and s.targets[0].id == "port" and isinstance(s.value, ast.Constant)]
-        ctx.require(len(a) == 1 and len(block) == 1, "har.request_to_flow: port branch not modelled")
-        return a[0].value.value
-
-    lit = str(ifs[0].test.args[0].value)[:-3]
-    ctx.require(lit in RFC, f"har.request_to_flow tests scheme {lit!r}")
-    table("har.request_to_flow", (HAR, "request_to_flow"), {lit: const_port(ifs[0].body), ("https" if lit == "http" else "http"): const_port(ifs[0].orelse)}, ifs[0])
+    table("parse_h2_request_headers", (H2, "parse_h2_request_headers"), port_of("parse_h2_request_headers", h2_run), h2)
 
     rl = ctx.func(READ, "_read_request_line")
-    dflt = [n for n in ast.walk(rl) if isinstance(n, ast.Assign) and isinstance(n.targets[0], ast.Name) and n.targets[0].id == "port" and isinstance(n.value, ast.BoolOp)]
-    okd = len(dflt) == 1 and isinstance(dflt[0].value.op, ast.Or) and ast.unparse(dflt[0].value.values[0]) == "port" and ast.unparse(dflt[0].value.values[1]) == "url.default_port(scheme)"
-    consts = [n.value for n in ast.walk(rl) if isinstance(n, ast.Constant) and n.value in (80, 443, 8080, 8443)]
-    ctx.require(okd or consts or not dflt, "_read_request_line: port defaulting shape not modelled")
-    ctx.check(okd and not consts, "R33.2", (READ, "_read_request_line", rl), "_read_request_line: port = port or url.default_port(scheme)",
-              "absolute-form request lines default the port with their own table instead of url.default_port", desc="_read_request_line defaults through url.default_port")
+    table("_read_request_line", (READ, "_read_request_line"), port_of("_read_request_line", lambda s, p: run(_interp(ctx), READ, "_read_request_line", b"GET %s://example.com%s/x HTTP/1.1" % (s.encode(), b":%d" % p if p else b""))), rl)
 
-    expect(ctx, "R33.1", 6)
+    # HttpStream.state_wait_for_request_headers: the constant port written to the request belongs to the scheme written on the same path
+    hs = ctx.func(HS, "HttpStream.state_wait_for_request_headers")
+
+    def tls_atom(expr, st, sp):
+        ch = sp.chain(expr, st) if isinstance(expr, ast.Attribute) else None
+        if ch is None and isinstance(expr, ast.Name):
+            v = st.get(f"0:{expr.id}")
+            ch = v[1] if isinstance(v, tuple) and len(v) == 2 and v[0] == "r" else None
+        if ch and ch.split(".")[-1] == "tls":
+            sp.atoms_seen.add("TLS:" + ch)
+            return ("TLS:" + ch, True)
+        return None
+
+    sinks = [("port", ("request.data.port", "request.port")), ("scheme", ("request.data.scheme", "request.scheme"))]
+    probe = _SinkSpec(sinks, atom=tls_atom, val=_fold, unroll=1)
+    run_block(hs.body, probe, {p: ("param", p) for p in params(hs)})
+    pairs = set()
+    atoms = sorted(probe.atoms_seen)
+    ctx.require(len(atoms) <= 4, f"HttpStream.state_wait_for_request_headers: {len(atoms)} different .tls tests (shape not modelled)")
+    for mask in range(2 ** len(atoms)):
+        scenario = {a: bool(mask >> i & 1) for i, a in enumerate(atoms)}  # every test pinned: the port and the scheme it decides are taken on the same side
+        if True:
+            traces, _ = run_block(hs.body, _SinkSpec(sinks, atom=tls_atom, scenario=scenario, val=_fold, unroll=1), {p: ("param", p) for p in params(hs)})
+            ctx.paths += len(traces)
+            for tr, how, _ in traces:
+                evs = [e for e in tr if e[0] in ("port", "scheme")]
+                for i, e in enumerate(evs):
+                    if e[0] == "port" and is_const(e[1]) and isinstance(e[1][1], int) and not isinstance(e[1][1], bool):
+                        sch = [x for x in evs[i + 1:] if x[0] == "scheme"][:1] or [x for x in evs[:i] if x[0] == "scheme"][-1:]
+                        ctx.require(sch and is_const(sch[0][1]) and isinstance(sch[0][1][1], (str, bytes)), "HttpStream.state_wait_for_request_headers: a constant default port is written without a constant scheme on the same path (shape not modelled)")
+                        pairs.add((_s(sch[0][1][1]), e[1][1]))
+    def via_default_port(fn):
+        return any(isinstance(n, ast.Call) and last_attr(n.func) == "default_port" for n in ast.walk(fn))
+
+    if not pairs and via_default_port(hs):
+        ctx.ok("R33.2", "HttpStream.state_wait_for_request_headers: no port constants, defaults through url.default_port")
+    else:
+        ctx.require(pairs, "HttpStream.state_wait_for_request_headers: no defaulted port found (shape not modelled)")
+        wrong = sorted(p for p in pairs if RFC.get(p[0]) != p[1])
+        ctx.cells += len(pairs)
+        ctx.check(not wrong and {s for s, _ in pairs} == set(RFC), "R33.2", (HS, "HttpStream.state_wait_for_request_headers", hs), f"HttpStream.state_wait_for_request_headers: {sorted(pairs)}",
+                  f"the port filled in for a request without one does not belong to the scheme chosen by the same test ({RFC}): {wrong or sorted(pairs)}", desc=f"HttpStream.state_wait_for_request_headers: {sorted(pairs)}")
+
+    # har.request_to_flow: the port of the server address follows the URL's scheme
+    rtf = ctx.func(HAR, "request_to_flow")
+
+    def url_atom(expr, st, sp):
+        if isinstance(expr, ast.Call) and isinstance(expr.func, ast.Attribute) and expr.func.attr == "startswith" and len(expr.args) == 1 and isinstance(expr.args[0], ast.Constant) \
+                and str(_s(expr.args[0].value)).lower() in ("http://", "https://", "http:", "https:"):
+            return ("URL:" + str(_s(expr.args[0].value)).lower().split(":")[0], True)
+        if isinstance(expr, ast.Compare) and len(expr.ops) == 1 and isinstance(expr.ops[0], (ast.Eq, ast.NotEq)):
+            for a, b in ((expr.left, expr.comparators[0]), (expr.comparators[0], expr.left)):
+                if isinstance(b, ast.Constant) and isinstance(b.value, (str, bytes)) and _s(b.value).lower().rstrip(":/") in RFC and not isinstance(a, ast.Constant):
+                    return ("URL:" + _s(b.value).lower().rstrip(":/"), isinstance(expr.ops[0], ast.Eq))
+        return None
+
+    def har_label(node, st, sp):
+        out = []
+        for n in ast.walk(node):
+            if isinstance(n, ast.Call) and last_attr(n.func) == "Server":
+                addr = next((k.value for k in n.keywords if k.arg == "address"), None)
+                if isinstance(addr, ast.Tuple) and len(addr.elts) == 2:
+                    out.append(("port", sp.v(addr.elts[1], st), norm(addr.elts[1])))
+        return out
+
+    tab = {}
+    for scheme in RFC:
+        other = "https" if scheme == "http" else "http"
+        traces, _ = run_block(rtf.body, ASpec(label=har_label, atom=url_atom, scenario={"URL:" + scheme: True, "URL:" + other: False}, val=_fold, unroll=1), {p: ("param", p) for p in params(rtf, drop_self=False)})
+        ctx.paths += len(traces)
+        seen = {e[1:] for tr, how, _ in traces for e in tr if e[0] == "port"}
+        ctx.require(seen, "har.request_to_flow: no connection.Server(address=(host, port)) found (shape not modelled)")
+        vals = set()
+        for v, text in seen:
+            if not (is_const(v) and isinstance(v[1], int) and not isinstance(v[1], bool)):
+                ctx.require(via_default_port(rtf), f"har.request_to_flow: the server port {text} is not a constant decided by the URL's scheme (shape not modelled)")
+                continue
+            vals.add(v[1])
+        if vals:
+            tab[scheme] = vals.pop() if len(vals) == 1 else sorted(vals)
+    if tab:
+        table("har.request_to_flow", (HAR, "request_to_flow"), tab, rtf)
+    else:
+        ctx.ok("R33.2", "har.request_to_flow: no port constants, defaults through url.default_port")
+
+
+def check(ctx):
+    ctx.rule("R33.1", "host / port / url edits store the new components and leave an existing Host header and a non-empty authority naming the new destination; url reads back as assigned, idempotently; hostport names (host, port)")
+    ctx.rule("R33.2", "every port-defaulting site agrees with {http: 80, https: 443}")
+    ctx.rule("R33.3", "url.parse returns every component (path, ;params, ?query, #fragment) of the URL, url.unparse uses all four components, unparse(parse(u)) denotes u")
+    ctx.trust("urllib.parse / re / str.encode('idna') (stdlib, executed as trusted library code by the interpreter); model of http.Headers as a case-insensitive mapping")
+    ctx.bounds.append("Request accessors interpreted for old scheme {http, https} x old port {80, 443, 8080} x {Host header, authority, both, neither} x new host / port / URL samples")
+    _edits(ctx)
+    _parse_unparse(ctx)
+    _default_ports(ctx)
+    expect(ctx, "R33.1", 5)
     expect(ctx, "R33.2", 6)
-    expect(ctx, "R33.3", len(need) + 1)
+    expect(ctx, "R33.3", 3)
 
 
 MUTANTS = [
@@ -456,20 +731,25 @@ MUTANTS = [
     Mutant("authority-guard-inverted", HTTP, "        if self.data.authority:\n            self.authority = val\n", "        if not self.data.authority:\n            self.authority = val\n", "R33.1"),
     Mutant("hostport-from-pretty-host", HTTP, "val = url.hostport(self.scheme, self.host, self.port)", "val = url.hostport(self.scheme, self.pretty_host, self.port)", "R33.1"),
     Mutant("url-setter-swaps-host-port", HTTP, "self.scheme, self.host, self.port, self.path = url.parse(val)", "self.scheme, self.port, self.host, self.path = url.parse(val)", "R33.1"),
+    Mutant("url-setter-scheme-last", HTTP, "        self.scheme, self.host, self.port, self.path = url.parse(val)  # type: ignore\n", "        scheme, self.host, self.port, self.path = url.parse(val)  # type: ignore\n        self.scheme = scheme\n", "R33.1"),
+    Mutant("url-setter-skips-unchanged-host-port", HTTP, "        self.scheme, self.host, self.port, self.path = url.parse(val)  # type: ignore\n",
+           "        scheme, host, port, path = url.parse(val)\n        self.scheme, self.path = scheme, path\n        if (self.host, self.port) != (host.decode(\"idna\"), port):\n            self.host, self.port = host, port\n", "R33.1"),
     Mutant("url-getter-swaps-args", HTTP, "        return url.unparse(self.scheme, self.host, self.port, path)\n\n    @url.setter", "        return url.unparse(self.scheme, self.port, self.host, path)\n\n    @url.setter", "R33.1"),
     Mutant("hostport-inverted", URL, "    if default_port(scheme) == port:\n        return host\n", "    if default_port(scheme) != port:\n        return host\n", "R33.1"),
-    Mutant("hostport-always-with-port", URL, "    if default_port(scheme) == port:\n        return host\n    else:\n        if isinstance(host, bytes):", "    if True:\n        if isinstance(host, bytes):", "R33.1"),
+    Mutant("hostport-never-with-port", URL, "    if default_port(scheme) == port:\n        return host\n    else:\n        if isinstance(host, bytes):", "    if port:\n        return host\n    else:\n        if isinstance(host, bytes):", "R33.1"),
     Mutant("default-port-table-https-8443", URL, "        \"https\": 443,\n", "        \"https\": 8443,\n", "R33.2"),
     Mutant("default-port-table-bytes-key-missing", URL, "        b\"https\": 443,\n", "", "R33.2"),
     Mutant("parse-defaults-swapped", URL, "port = 443 if parsed_b.scheme == b\"https\" else 80", "port = 443 if parsed_b.scheme == b\"http\" else 80", "R33.2"),
     Mutant("h2-default-port-swapped", H2, "port = 80 if scheme == b\"http\" else 443", "port = 80 if scheme == b\"https\" else 443", "R33.2"),
     Mutant("httpstream-default-port-swapped", HS, "port = 443 if self.context.client.tls else 80", "port = 80 if self.context.client.tls else 443", "R33.2"),
+    Mutant("httpstream-scheme-by-other-test", HS, "                self.flow.request.scheme = (\n                    \"https\" if self.context.client.tls else \"http\"\n                )\n",
+           "                self.flow.request.scheme = (\n                    \"http\" if self.context.client.tls else \"https\"\n                )\n", "R33.2"),
     Mutant("har-default-port-wrong", HAR, "    if request_url.startswith(\"http://\"):\n        port = 80\n    else:\n        port = 443\n", "    if request_url.startswith(\"http://\"):\n        port = 80\n    else:\n        port = 80\n", "R33.2"),
+    Mutant("request-line-own-default", READ, "            port = port or url.default_port(scheme)\n", "            port = port or 80\n", "R33.2"),
     Mutant("parse-drops-params", URL, "    full_path: bytes = urllib.parse.urlunparse(\n        (b\"\", b\"\", parsed_b.path, parsed_b.params, parsed_b.query, parsed_b.fragment)  # type: ignore\n    )\n",
            "    full_path: bytes = parsed_b.path or b\"/\"\n    if parsed_b.query:\n        full_path += b\"?\" + parsed_b.query\n    if parsed_b.fragment:\n        full_path += b\"#\" + parsed_b.fragment\n", "R33.3"),
     Mutant("parse-drops-query", URL, "(b\"\", b\"\", parsed_b.path, parsed_b.params, parsed_b.query, parsed_b.fragment)", "(b\"\", b\"\", parsed_b.path, parsed_b.params, b\"\", parsed_b.fragment)", "R33.3"),
     Mutant("parse-returns-bare-path", URL, "    return parsed_b.scheme, host, port, full_path\n", "    return parsed_b.scheme, host, port, parsed_b.path or b\"/\"\n", "R33.3"),
     Mutant("unparse-bytes-drops-path", URL, "        return b\"%s://%s%s\" % (scheme, authority, path)\n", "        return b\"%s://%s/\" % (scheme, authority)\n", "R33.3"),
     Mutant("unparse-ignores-port", URL, "    authority = hostport(scheme, host, port)\n\n    if isinstance(scheme, str):", "    authority = host\n\n    if isinstance(scheme, str):", "R33.3"),
-    Mutant("request-line-own-default", READ, "            port = port or url.default_port(scheme)\n", "            port = port or 80\n", "R33.2"),
 ]
